@@ -5,7 +5,7 @@ CONSTANTS
   Costs = {1}
   Requests = {0}
   NCalls = 1
-  GasArgs = {"0", "2300", "all"}
+  GasArgs = {"0", "2300", "p64p5", "all"}
   Targets = {"empty", "returner", "reverter"}
   CallValues = {"0", "1", "p255", "p255p1", "max"}
   Presents = {0}
